@@ -67,6 +67,17 @@ def check_masked(inp):
     val = float(models.evaluate_average_loss(params, batches, key, pel, r))
     if np.isnan(val) or abs(val - ref_loss()) > 1e-4 * (1 + abs(ref_loss())):
       return f'average loss with padded batches of {bs}/{buckets}: {val}, expected {ref_loss()} (n={n}, reg={use_reg})'
+  # a batch list padded to a fixed number of batches: fully padded (all-False mask) batches, with garbage rows, anywhere
+  if n > 0:
+    real = list(ds.padded_batch(batch_size=2))
+    padb = jax.tree_util.tree_map(lambda a: np.full_like(np.asarray(a), 7) if np.asarray(a).dtype != np.bool_ else np.zeros_like(np.asarray(a)),
+                                 dict(real[0]))
+    padb['__mask__'] = np.zeros_like(np.asarray(real[0]['__mask__']))
+    for batches in (real + [padb], [padb] + real, real[:1] + [padb, padb] + real[1:]):
+      val = float(models.evaluate_average_loss(params, batches, key, pel, r))
+      if np.isnan(val) or abs(val - ref_loss()) > 1e-4 * (1 + abs(ref_loss())):
+        return (f'average loss changes when fully padded batches are added to the batch list: {val}, expected {ref_loss()} '
+                f'(n={n}, reg={use_reg})')
   if n > 0:
     val = float(models.evaluate_average_loss(params, list(ds.batch(batch_size=2)), key, pel, r))
     if abs(val - ref_loss()) > 1e-4 * (1 + abs(ref_loss())):
